@@ -469,34 +469,42 @@ theorem procAll_seq (L : Layout) (tb : BTable) (times ts : List Int) (sts : Nat 
   have := key n 0 (by omega)
   simpa using this
 
+/-- without a da capo / dal segno among the raw destinations the repaired ordering is the plain one -/
+theorem cleanTo_noNav (own : Nat) (raw : List (Tag × Dest)) (h : nav1Of raw = []) :
+    cleanTo own raw = cleanToBase raw := by
+  unfold cleanTo cleanToBase
+  simp only [h, List.isEmpty_nil, Bool.not_true, Bool.false_eq_true, if_false]
+
 /-- `buildSegs` yields `segs` when every raw destination list cleans up to the one of `segs` -/
 theorem buildSegs_eq (times : List Int) (info : List SegInfo) :
-    ∀ (infs : List SegInfo) (ts : List Int) (segs : List Seg), ts.length = infs.length + 1 →
+    ∀ (infs : List SegInfo) (k : Nat) (ts : List Int) (segs : List Seg), ts.length = infs.length + 1 →
       segs.length = infs.length →
       (∀ i inf, infs[i]? = some inf → ∃ s e to aw, ts[i]? = some s ∧ ts[i + 1]? = some e ∧
-        cleanTo inf.to = some (to, aw) ∧
+        cleanTo (k + i) inf.to = some (to, aw) ∧
         segs[i]? = some { start := s, stp := e, to := to, await := aw, ty := inf.ty }) →
-      buildSegs times info ts infs = some segs := by
+      buildSegs times info k ts infs = some segs := by
   intro infs
   induction infs with
   | nil =>
-    intro ts segs hl hs _
+    intro k ts segs hl hs _
     have : segs = [] := List.eq_nil_of_length_eq_zero (by simpa using hs)
     subst this
     match ts, hl with
     | [x], _ => rfl
   | cons inf infs ih =>
-    intro ts segs hl hs h
+    intro k ts segs hl hs h
     match ts, hl with
     | a :: b :: rest, hl =>
       match segs, hs with
       | sg :: segs', hs =>
         obtain ⟨s, e, to, aw, h1, h2, h3, h4⟩ := h 0 inf rfl
-        simp only [List.getElem?_cons_zero, List.getElem?_cons_succ, Option.some.injEq] at h1 h2 h4
+        simp only [List.getElem?_cons_zero, List.getElem?_cons_succ, Option.some.injEq, Nat.add_zero] at h1 h2 h3 h4
         subst h1 h2
-        have hrec := ih (b :: rest) segs' (by simpa using hl) (by simpa using hs)
+        have hrec := ih (k + 1) (b :: rest) segs' (by simpa using hl) (by simpa using hs)
           (by intro i inf' hi
               have := h (i + 1) inf' (by simpa using hi)
+              have e : k + (i + 1) = k + 1 + i := by omega
+              rw [e] at this
               simpa using this)
         simp only [buildSegs, h3, hrec, Option.bind_eq_bind, Option.bind_some, h4]
 
